@@ -306,6 +306,18 @@ func checkC03() fw.Check {
 											return gen.WrapError(e.spec.Target, e.local, gen.DestUnreach, code, gen.QuoteBytes(p, 1, "fix"), "min", nil, 0)
 										}
 									}
+									if !v.Serial && di == 1 && dist < w.last-1 {
+										// the destination's answer to the first probe that reaches it takes longer than the per-probe
+										// timeout - and still arrives inside the run's listening window (timeout + probes x delay),
+										// after its quick answers to the next probes: the list ends at ITS TTL
+										first := dist
+										m.destDelayFor = func(ttl int) time.Duration {
+											if ttl == first {
+												return e.spec.Timeout + e.spec.Delay
+											}
+											return 4 * time.Millisecond
+										}
+									}
 									last := w.last
 									if dist > 0 {
 										last = dist - 1
